@@ -102,6 +102,11 @@ def catalogue():
         ckw=dict(ping_rate=4.0, poll=5.0))
     add('slow-ping-handler-31s-poll-2', slow, policy={'ping': [['sleep', 31.0]], 'binary': [['sleep', 1.0]]},
         ckw=dict(ping_rate=0, poll=2.0))
+    # ... also when the slow handler is the one of the Closing event and the server goes on sending behind its Close
+    after_close = F(1, b'T1') + F(8, refws.close_payload(1000, 'x')) + F(1, b'behind the close') + F(9, b'pp') + F(8, refws.close_payload(1000, 'again'))
+    add('slow-closing-handler-7s-poll-5', after_close, policy={'closing': [['sleep', 7.0]]}, ckw=dict(ping_rate=0, poll=5.0))
+    add('slow-closing-handler-11s-poll-5-ping-3', after_close, policy={'closing': [['sleep', 11.0]], 'text#0': [['sleep', 6.0]]},
+        ckw=dict(ping_rate=3.0, poll=5.0))
     add('slow-ready-handler-12s', slow, policy={'ready': [['sleep', 12.0]]}, ckw=dict(ping_rate=5.0, poll=3.0, ping_timeout=60.0))
     # handshake outcomes followed by frames
     add('hs-rejected-200', F(1, b'x'), hs=dict(status=200, reason='OK'))
